@@ -58,6 +58,7 @@ fn main() {
         ("record", "serde") => drv_serde::rec_serde(&a, &mut out),
         ("record", "corpus") => drv_corpus::rec_corpus(&a, &mut out),
         ("debug", "extremes") => drv_build::debug_extremes(&a),
+        ("replay", "frames") => drv_frame::replay_frames(&a, &mut out),
         ("replay", "stream") => drv_frame::replay_stream(&a, &mut out),
         ("replay", "histories") => drv_build::replay_histories(&a, &mut out),
         _ => {
